@@ -525,6 +525,15 @@ pub fn run(run: &mut Run) {
     // (c)
     let n = run.budget(200_000, 10_000_000);
     run.prop(&Mutations, mutation_strategy(), n);
+    // (c2) IS_VER frames around free-form version text (the one field that goes through a hand-written text parser),
+    // followed by a valid TINY
+    let strat = crate::props::c03::ver_frame_strategy().prop_map(|m| {
+        let mut buf = m.frame;
+        buf.extend_from_slice(&[if m.compressed { 1 } else { 4 }, 3, 9, 3]);
+        BufCase { compressed: m.compressed, buf }
+    });
+    let n = run.budget(60_000, 3_000_000);
+    run.prop(&Mutations, strat, n);
     // (f) receive loop over concatenations of mutated frames and random tails
     let strat = (proptest::collection::vec(mutation_strategy(), 1..8), proptest::collection::vec(any::<u8>(), 0..40)).prop_map(|(parts, tail)| {
         let compressed = parts[0].compressed;
